@@ -219,10 +219,13 @@ def insAt (r : List Nat) (p c : Nat) : List Nat := r.take p ++ c :: r.drop p
 def posOn (vps : List (Nat × Nat)) (v : Nat) : Option Nat :=
   (vps.find? fun vp => vp.1 == v).map Prod.snd
 
+def insOne (c : Nat) (vps : List (Nat × Nat)) (v : Nat) (r : List Nat) : List Nat :=
+  match posOn vps v with
+  | some p => insAt r p c
+  | none => r
+
 def insertAll (c : Nat) (vps : List (Nat × Nat)) (routes : List (List Nat)) : List (List Nat) :=
-  routes.mapIdx fun v r => match posOn vps v with
-    | some p => insAt r p c
-    | none => r
+  routes.mapIdx (insOne c vps)
 
 /-- Drop the customers of `S` from every route. -/
 def removeAll (S : List Nat) (routes : List (List Nat)) : List (List Nat) :=
@@ -392,7 +395,18 @@ def objective (W : Weights) (P : Prob) (s : VState) : Rat :=
   W.dw * totalDist P s + W.vw * (vehiclesUsed s : Rat) + W.twp * twViol P s + W.capp * capViol P s
     + W.syncp * syncViol P s + W.unp * (s.unassigned.length : Rat)
 
-def chkObjective (tol : Rat) (W : Weights) (P : Prob) (s : VState) (obj : Rat) : Bool :=
-  closeTo tol obj (objective W P s)
+def absR (x : Rat) : Rat := if x < 0 then -x else x
+
+/-- The reported objective agrees with the exact weighted sum within `tol + rel·|exact|`. -/
+def chkObjective (tol rel : Rat) (W : Weights) (P : Prob) (s : VState) (obj : Rat) : Bool :=
+  closeTo (tol + rel * absR (objective W P s)) obj (objective W P s)
+
+/-- The cached distance matrix is the Euclidean distance of the coordinates: symmetric, zero on
+the diagonal, non-negative, and `d² = Δx² + Δy²` within the relative tolerance `rel`. -/
+def chkEuclid (rel : Rat) (xy : Nat → Rat × Rat) (P : Prob) : Bool :=
+  (List.range (P.n + 1)).all fun i => (List.range (P.n + 1)).all fun j =>
+    let d := P.dist i j
+    let q := ((xy i).1 - (xy j).1) * ((xy i).1 - (xy j).1) + ((xy i).2 - (xy j).2) * ((xy i).2 - (xy j).2)
+    decide (0 ≤ d) && decide (d = P.dist j i) && closeTo (rel * q) (d * d) q
 
 end Solvor.Sched
